@@ -242,7 +242,7 @@ def install_loops(wh, on_create_iteration=None, on_outer_iteration=None):
   def step_create(fr):
     if on_create_iteration:
       on_create_iteration(fr)
-  ip.loops[(WCD, 1)] = trivial_loop('while cache.new_metrics and (not CREATE_BUCKET or CREATE_BUCKET.peek(1))',
+  ip.loops[(WCD, 1)] = trivial_loop('while cache.new_metrics',
                                     havoc_create, OUTER_LOCALS, ghost_step=step_create)
 
   def first_match_loop(ordn, anchor, var_unset):
